@@ -113,6 +113,8 @@ def scenarios(dumps, tier, rng=None, syscfg=None):
             ("readstr", fmt, "readstr @N %s MACHPHYSADDR 0x3000 0 never:1" % path),
             ("getxlat", fmt, "getxlat @N %s linux %s" % (path, ROOT)),
         ]
+        if fmt == "elf":
+            sc.append(("utsname", fmt, "utsname @N %s %s" % (path, ROOT)))
         if fmt == "diskdump-ia32":
             sc.append(("getxlat", fmt, "getxlat @N %s xen %s" % (path, ROOT)))
         if tier == "thorough":
